@@ -90,6 +90,10 @@ MUTANTS = [
     ('codegen.py', "def codegen_normsq(x):\n    return x * ~x", "def codegen_normsq(x):\n    return x * x", 'composegen', 'codegen_normsq on generic operands'),
     ('codegen.py', "    return x * y * ~x\n", "    return ~x * y * x\n", 'composegen', 'codegen_sw on generic operands'),
     ('codegen.py', "    return x * y * ~x\n", "    return x * (y * ~x)\n", 'composegen', 'pass'),                 # associativity
+    ('codegen.py', "cs.append(s if (s := xi.e) == 0 else n * s / i)", "cs.append(s if (s := xi.e) == 0 else n * s / (i + 1))", 'inverse', 'codegen_shirokov_inv'),
+    ('codegen.py', "        adj = xs[-1] - cs[-1]", "        adj = xs[-1] + cs[-1]", 'inverse', 'codegen_shirokov_inv'),
+    ('codegen.py', "powers[step] = operation(powers[chain[-2]], powers[step - chain[-2]])", "powers[step] = operation(powers[chain[-2]], powers[chain[-2]])", 'inverse', 'codegen_shirokov_inv'),
+    ('codegen.py', "    num = num if x is None else x * num", "    num = num if x is None else num * x", 'inverse', 'the quotient is x * inverse(y)'),
     # ---- harmless refactorings: must stay green (no VIOLATION); out-of-subset is acceptable (undecided), refutation is a false alarm
     ('codegen.py', "            termstr = vx * vy if sign > 0 else (- vx * vy)\n            if key_out in res:\n                res[key_out] += termstr\n            else:\n                res[key_out] = termstr",
      "            term = vx * vy if sign > 0 else (- vx * vy)\n            if key_out not in res:\n                res[key_out] = term\n            else:\n                res[key_out] = res[key_out] + term", 'codegen', 'pass'),
@@ -138,7 +142,7 @@ def build_group(H, group):
         IC.vc_compositions_generic(H, 'quick')
     elif group == 'inverse':
         from contracts import inverse_c as IC
-        IC.vc_hitzer_inv(H, 'quick')
+        IC.vc_hitzer_inv(H, 'quick'); IC.vc_shirokov_small(H, 'quick'); IC.vc_div_generic(H, 'quick'); IC.vc_inv_patterns(H, 'quick')
     elif group == 'pow':
         from contracts import misc_c as MC
         MC.vc_pow(H); T.vc_tape_pow(H)
